@@ -2,6 +2,7 @@ package main
 
 import (
 	"bytes"
+	"encoding/hex"
 	"fmt"
 	"go/ast"
 	"go/parser"
@@ -18,6 +19,7 @@ import (
 	"time"
 
 	"github.com/Dash-Industry-Forum/livesim2/pkg/scte35"
+	"github.com/Eyevinn/mp4ff/bits"
 	"github.com/Eyevinn/mp4ff/mp4"
 	"verifharness/lib"
 )
@@ -497,6 +499,167 @@ func (sc srcConsts) term(id int) string {
 		return sc.AdDurDef
 	}
 	return fmt.Sprintf("CConst %d %s %s %s %d %d %d %d %d %d %d %d", id, l(1), l(2), l(3), ad(1), ad(2), ad(3), sc.Lead, sc.Minute, sc.Clock, sc.PtsBits, sc.Next)
+}
+
+// ---------------------------------------------------------------- derived assets
+
+func copyFile(src, dst string) error {
+	data, err := os.ReadFile(src)
+	if err != nil {
+		return err
+	}
+	if err := os.MkdirAll(filepath.Dir(dst), 0o755); err != nil {
+		return err
+	}
+	return os.WriteFile(dst, data, 0o644)
+}
+
+// buildDerivedAssets writes, below root, two assets made from the bundled testpic_2s whose non-video
+// representations are served from their files like video (not rebuilt like clear audio, not shifted
+// like stpp): testpic_2s_encaudio (audio A48 pre-encrypted with cenc: enca/sinf/schm in the init
+// segment) and testpic_2s_wvtt (an additional stored wvtt text track W1 with one empty cue per segment).
+func buildDerivedAssets(root string) error {
+	src := filepath.Join(lib.TestVodRoot, "testpic_2s")
+	for _, name := range []string{"testpic_2s_encaudio", "testpic_2s_wvtt"} {
+		dst := filepath.Join(root, name)
+		for _, rep := range []string{"V300", "A48"} {
+			if name == "testpic_2s_encaudio" && rep == "A48" {
+				continue
+			}
+			for _, f := range []string{"init.mp4", "1.m4s", "2.m4s", "3.m4s", "4.m4s"} {
+				if err := copyFile(filepath.Join(src, rep, f), filepath.Join(dst, rep, f)); err != nil {
+					return err
+				}
+			}
+		}
+	}
+	// pre-encrypted audio
+	{
+		dst := filepath.Join(root, "testpic_2s_encaudio")
+		if err := copyFile(filepath.Join(src, "Manifest.mpd"), filepath.Join(dst, "Manifest.mpd")); err != nil {
+			return err
+		}
+		rawInit, err := os.ReadFile(filepath.Join(src, "A48", "init.mp4"))
+		if err != nil {
+			return err
+		}
+		fi, err := mp4.DecodeFileSR(bits.NewFixedSliceReader(rawInit))
+		if err != nil || fi.Init == nil {
+			return fmt.Errorf("A48 init: %v", err)
+		}
+		key := []byte("0123456789abcdef")
+		iv := []byte("fedcba9876543210")[:8]
+		kid, err := mp4.NewUUIDFromHex(hex.EncodeToString([]byte("c13-derived-kid!")))
+		if err != nil {
+			return err
+		}
+		ipd, err := mp4.InitProtect(fi.Init, nil, iv, "cenc", kid, nil)
+		if err != nil {
+			return fmt.Errorf("InitProtect: %w", err)
+		}
+		sw := bits.NewFixedSliceWriter(int(fi.Init.Size()))
+		if err := fi.Init.EncodeSW(sw); err != nil {
+			return err
+		}
+		if err := os.MkdirAll(filepath.Join(dst, "A48"), 0o755); err != nil {
+			return err
+		}
+		if err := os.WriteFile(filepath.Join(dst, "A48", "init.mp4"), sw.Bytes(), 0o644); err != nil {
+			return err
+		}
+		for nr := 1; nr <= 4; nr++ {
+			data, err := os.ReadFile(filepath.Join(src, "A48", fmt.Sprintf("%d.m4s", nr)))
+			if err != nil {
+				return err
+			}
+			f, err := mp4.DecodeFileSR(bits.NewFixedSliceReader(data))
+			if err != nil {
+				return err
+			}
+			seg := f.Segments[0]
+			for _, frag := range seg.Fragments {
+				if err := mp4.EncryptFragment(frag, key, iv, ipd); err != nil {
+					return fmt.Errorf("EncryptFragment: %w", err)
+				}
+			}
+			w := bits.NewFixedSliceWriter(int(seg.Size()))
+			if err := seg.EncodeSW(w); err != nil {
+				return err
+			}
+			if err := os.WriteFile(filepath.Join(dst, "A48", fmt.Sprintf("%d.m4s", nr)), w.Bytes(), 0o644); err != nil {
+				return err
+			}
+		}
+	}
+	// stored wvtt text track
+	{
+		dst := filepath.Join(root, "testpic_2s_wvtt")
+		mpd, err := os.ReadFile(filepath.Join(src, "Manifest.mpd"))
+		if err != nil {
+			return err
+		}
+		as := `      <AdaptationSet contentType="text" mimeType="application/mp4" segmentAlignment="true" lang="en">
+         <SegmentTemplate startNumber="1" initialization="$RepresentationID$/init.mp4" duration="2" media="$RepresentationID$/$Number$.m4s"/>
+         <Representation id="W1" codecs="wvtt" startWithSAP="1" bandwidth="1000"/>
+      </AdaptationSet>
+`
+		out := strings.Replace(string(mpd), "   </Period>", as+"   </Period>", 1)
+		if out == string(mpd) {
+			out = strings.Replace(string(mpd), "</Period>", as+"</Period>", 1)
+		}
+		if err := os.WriteFile(filepath.Join(dst, "Manifest.mpd"), []byte(out), 0o644); err != nil {
+			return err
+		}
+		init := mp4.CreateEmptyInit()
+		init.AddEmptyTrack(1000, "wvtt", "en")
+		if err := init.Moov.Trak.SetWvttDescriptor("WEBVTT"); err != nil {
+			return err
+		}
+		if err := os.MkdirAll(filepath.Join(dst, "W1"), 0o755); err != nil {
+			return err
+		}
+		sw := bits.NewFixedSliceWriter(int(init.Size()))
+		if err := init.EncodeSW(sw); err != nil {
+			return err
+		}
+		if err := os.WriteFile(filepath.Join(dst, "W1", "init.mp4"), sw.Bytes(), 0o644); err != nil {
+			return err
+		}
+		vtte := []byte{0, 0, 0, 8, 0x76, 0x74, 0x74, 0x65}
+		for nr := 1; nr <= 4; nr++ {
+			seg := mp4.NewMediaSegment()
+			frag, err := mp4.CreateFragment(uint32(nr), 1)
+			if err != nil {
+				return err
+			}
+			seg.AddFragment(frag)
+			frag.AddFullSample(mp4.FullSample{Sample: mp4.Sample{Flags: mp4.SyncSampleFlags, Dur: 2000, Size: uint32(len(vtte))}, DecodeTime: uint64(nr-1) * 2000, Data: vtte})
+			w := bits.NewFixedSliceWriter(int(seg.Size()))
+			if err := seg.EncodeSW(w); err != nil {
+				return err
+			}
+			if err := os.WriteFile(filepath.Join(dst, "W1", fmt.Sprintf("%d.m4s", nr)), w.Bytes(), 0o644); err != nil {
+				return err
+			}
+		}
+	}
+	return nil
+}
+
+// countEmsg counts the emsg boxes at the top level of a served segment.
+func countEmsg(body []byte) (int, error) {
+	n, pos := 0, 0
+	for pos+8 <= len(body) {
+		size := int(uint32(body[pos])<<24 | uint32(body[pos+1])<<16 | uint32(body[pos+2])<<8 | uint32(body[pos+3]))
+		if size < 8 || pos+size > len(body) {
+			return n, fmt.Errorf("bad box size %d at %d", size, pos)
+		}
+		if string(body[pos+4:pos+8]) == "emsg" {
+			n++
+		}
+		pos += size
+	}
+	return n, nil
 }
 
 // ---------------------------------------------------------------- L1: served segments
@@ -1394,6 +1557,82 @@ func runC13(c *lib.Ctx) error {
 			r.terms = append(r.terms, fmt.Sprintf("CMpd %d %s %s %s", idn, lib.Cbool(isVideo), optZ(&nn), lib.Cbool(inband)))
 		}
 	}
+	// ------------------------------------------------------------ assets whose non-video representations are served from file
+	// (pre-encrypted audio, a stored wvtt text track): every representation that is not video carries
+	// no event, in every segment of the minutes looked at; the video of the same asset carries them
+	{
+		root, cleanup, err := lib.ScratchDir("c13")
+		if err != nil {
+			return err
+		}
+		defer cleanup()
+		if err := buildDerivedAssets(root); err != nil {
+			return fmt.Errorf("derived assets: %w", err)
+		}
+		dls, err := lib.NewLivesim(root, nil)
+		if err != nil {
+			return fmt.Errorf("server over the derived assets: %w", err)
+		}
+		type nonVideo struct {
+			asset, rep string
+			ts, dur    uint64 // timescale and segment duration of the representation
+		}
+		reps := []nonVideo{{"testpic_2s_encaudio", "A48", 48000, 96000}, {"testpic_2s_wvtt", "A48", 48000, 96000}, {"testpic_2s_wvtt", "W1", 1000, 2000}}
+		for _, nv := range reps {
+			for n := 1; n <= 3; n++ {
+				m := 1 + rng.Intn(170)
+				firstNr := m*30 - 1
+				count := 31
+				if scale == 1 {
+					count = 24 // the first 48 s of the minute hold all announce instants
+				}
+				for nr := firstNr; nr < firstNr+count; nr++ {
+					url := fmt.Sprintf("/livesim2/scte35_%d/%s/%s/%d.m4s?nowMS=%d", n, nv.asset, nv.rep, nr, (nr+1)*2000+1500)
+					resp := dls.GetRaw(url)
+					idn, id := r.id()
+					in := map[string]any{"kind": "derived-rep", "url": url, "asset": nv.asset, "rep": nv.rep}
+					c.Res.Inputs[id] = in
+					c.Count("segment:derived-non-video:" + nv.asset + "/" + nv.rep)
+					oracleSegs++
+					if resp.Status != 200 {
+						return fmt.Errorf("%s: status %d %s %s", url, resp.Status, resp.Panic, strings.TrimSpace(string(resp.Body)))
+					}
+					ne, err := countEmsg(resp.Body)
+					if err != nil {
+						return fmt.Errorf("%s: %w", url, err)
+					}
+					if ne != 0 {
+						c.Fail(id, "event-on-other-representation", fmt.Sprintf("%s: the %s segment of asset %s carries %d emsg box(es)", url, nv.rep, nv.asset, ne), in)
+					}
+					if ne != 0 || nr%4 == 0 {
+						o := obs{Class: 0}
+						if ne != 0 {
+							o = obs{Class: 4, NrEmsg: ne}
+						}
+						nn := n
+						concTerms++
+						r.terms = append(r.terms, fmt.Sprintf("CSeg %d false %s %d %d %d %s", idn, optZ(&nn), uint64(nr)*nv.dur, nv.dur, nv.ts, obsTerm(o)))
+					}
+				}
+			}
+		}
+		// the video of the derived assets carries the events (one minute each)
+		saved := ls
+		ls = dls
+		for _, name := range []string{"testpic_2s_encaudio", "testpic_2s_wvtt"} {
+			a, err := loadAsset(dls, name, "Manifest.mpd")
+			if err == nil {
+				n := 1 + rng.Intn(3)
+				m := 1 + rng.Intn(170)
+				err = window(a, n, m*30-1, 33, "derived-video", 4)
+			}
+			if err != nil {
+				ls = saved
+				return fmt.Errorf("derived asset %s: %w", name, err)
+			}
+		}
+		ls = saved
+	}
 	// other N are rejected with 400 (segment and MPD requests)
 	for _, n := range []int{0, 4, 5, -1, 10, 60, 100} {
 		for _, tail := range []string{"testpic_2s/V300/20.m4s", "testpic_2s/Manifest.mpd", "testpic_8s/A48/5.m4s"} {
@@ -1419,7 +1658,7 @@ func runC13(c *lib.Ctx) error {
 		r.terms = append(r.terms, fmt.Sprintf("CCfg %d %s %d", idn, optZ(&nn), resp.Status))
 	}
 
-	c.Res.Evaluations = len(r.terms) + oracleSegs - c.Res.Distribution["segment:first-hours"] - c.Res.Distribution["segment:contiguous-minute"] - c.Res.Distribution["segment:far-minute"] - c.Res.Distribution["segment:around-announce"] - c.Res.Distribution["segment:chunked-minute"] - c.Res.Distribution["segment:crossed-minute"] - concTerms
+	c.Res.Evaluations = len(r.terms) + oracleSegs - c.Res.Distribution["segment:first-hours"] - c.Res.Distribution["segment:contiguous-minute"] - c.Res.Distribution["segment:far-minute"] - c.Res.Distribution["segment:around-announce"] - c.Res.Distribution["segment:chunked-minute"] - c.Res.Distribution["segment:crossed-minute"] - c.Res.Distribution["segment:derived-video"] - concTerms
 	c.Res.ModelCases = len(r.terms)
 	c.Res.DistinctNontrivial = len(r.distinct)
 	c.Res.Rule = fmt.Sprintf("direct CreateEmsgAhead calls (start/end exactly on, one tick before/after every announce instant; segments straddling a minute; random; PTS and id wrap; other N; inverted/long segments; timescale 0; uint64 wrap), direct CreateSpliceInsertPayload calls with random parameters, and video segments served by the in-process server for testpic_2s/6s/8s and the 29.97 fps WAVE asset with scte35_1/2/3: every segment of the first 3 h (10 h in the thorough tier; WAVE: sampled minutes) plus single minutes around multiples of 2^33/90000 s and up to ~57 years from the epoch (%d s of stream fetched and checked by the oracle; of the first hours the model replays a random 1/8 of the segments with an event or next to an announce instant and 1/60 of the rest, of the other windows all of the former and 1/10 of the latter; latest minute below 200000 s ends at %d s); audio segments, scte35 off, MPDs, rejected N. distinct = distinct inputs; non-trivial = an event (emsg) was produced", streamSeconds, maxSecond)
@@ -1509,6 +1748,25 @@ func replayC13(c *lib.Ctx) error {
 	case "consts":
 		sc := readSrcConsts()
 		fmt.Printf("replay C13: constants read from %s: %+v\n", filepath.Join(repoRoot(), "pkg/scte35/scte35.go"), sc)
+	case "derived-rep":
+		root, cleanup, err := lib.ScratchDir("c13replay")
+		if err != nil {
+			return err
+		}
+		defer cleanup()
+		if err := buildDerivedAssets(root); err != nil {
+			return err
+		}
+		dls, err := lib.NewLivesim(root, nil)
+		if err != nil {
+			return err
+		}
+		resp := dls.GetRaw(kind.URL)
+		n, _ := countEmsg(resp.Body)
+		fmt.Printf("replay C13: %s -> %d, %d bytes, %d emsg\n", kind.URL, resp.Status, len(resp.Body), n)
+		if n != 0 {
+			c.Fail("replay", "event-on-other-representation", fmt.Sprintf("%d emsg box(es)", n), kind)
+		}
 	case "other-rep":
 		ls, err := lib.NewLivesim(lib.TestVodRoot, nil)
 		if err != nil {
